@@ -370,5 +370,9 @@ def r7_merge(chk: Check) -> None:
     shared.keyed_lost_update_rule(chk, "C14.R7", "strategy kwargs collected from overrides and from configured headers", 1)
 
 
+def r8_sanitizer_on_copies(chk: Check) -> None:
+    shared.inplace_sanitizer_rule(chk, "C14.R8")
+
+
 def rules(tier: str) -> list:  # type: ignore[type-arg]
-    return [r1_overrides, r2_network_config, r3_precedence, r4_set_on_case, r5_lock, r6_strip_auth, r7_merge, rfwd_forwarding]
+    return [r1_overrides, r2_network_config, r3_precedence, r4_set_on_case, r5_lock, r6_strip_auth, r7_merge, r8_sanitizer_on_copies, rfwd_forwarding]
